@@ -775,7 +775,8 @@ def r1(ctx):
         f, flag, unsafe_only = work.pop()
         for e in cg.edges(f):
             if not e.targets and not e.sink:
-                if e.kind in ("local-callable", "computed-callee") and f is root:
+                nested = {d.name for d in walk(f.node, into_defs=True) if isinstance(d, FUNC_TYPES) and d is not f.node}
+                if e.kind in ("local-callable", "computed-callee") and f is root and e.label not in nested:
                     notes.add(f"{f.qual}: call of a caller-supplied value `{norm(e.call)}` is not followed")
                 continue
             guarded, why = unsafe_only, "no safe-mode flag reaches this function"
@@ -1081,11 +1082,11 @@ def r2(ctx):
     sink_calls = [(pf, e.call) for e in cg.edges(pf)
                   if e.sink or (e.kind in ("self", "class", "exact") and isinstance(e.call, ast.Call)
                                 and any(t.full in evaluating for t in e.targets))]
-    ser_calls = []
-    for g in pfns:
-        for c in find_calls(g.node, "serialize"):
-            ser_calls.append((g, c))
-    ctx.floor("C11.R2", "serializer.serialize call in the parser (packed branch)", len(ser_calls), 1)
+    # the packed branch is where the subfield serializer is looked up (its serialize() may run there or be deferred
+    # through a work list; C11.R3 ties the lookup to the serialize() call)
+    ser_calls = [(g, node) for g, node, key in _registry_lookups(repo, pfns)]
+    ctx.floor("C11.R2", "subfield serializer lookups in the parser (packed branch)", len(ser_calls), 1)
+    ctx.floor("C11.R2", "serialize() calls in the parser", sum(len(find_calls(g.node, "serialize")) for g in pfns), 1)
 
     # ---- formatter: variable lines
     var_lines = []
@@ -1359,6 +1360,55 @@ def _resolve_local(cg, f, e, depth=0):
     return e
 
 
+def _queue_origin(fn_node, node, callers=()) -> Dict[str, ast.AST]:
+    """Deferred work lists: when `node` sits in `for (a, b, ...) in L` and every `L.append((x, y, ...))` in the
+    function appends a tuple of the same arity, map the loop names to the queued expressions (position-wise; a
+    position with differing expressions is left out).  When L is a parameter of a helper, `callers` =
+    [(caller function node, call)] lets the list be traced to the caller's list."""
+    out: Dict[str, ast.AST] = {}
+    for loop in [a for a in ancestors(node) if isinstance(a, ast.For)]:
+        if not (isinstance(loop.target, ast.Tuple) and isinstance(loop.iter, ast.Name)):
+            continue
+        n = len(loop.target.elts)
+        scopes = [(fn_node, loop.iter.id)]
+        params = [a.arg for a in getattr(getattr(fn_node, "args", None), "args", [])]
+        if loop.iter.id in params:
+            for caller_node, call in callers:
+                idx = params.index(loop.iter.id)
+                if params and params[0] in ("self", "cls") and isinstance(call.func, ast.Attribute):
+                    idx -= 1
+                arg = call.args[idx] if 0 <= idx < len(call.args) else next(
+                    (k.value for k in call.keywords if k.arg == loop.iter.id), None)
+                if isinstance(arg, ast.Name):
+                    scopes.append((caller_node, arg.id))
+        queued = []
+        for scope, lname in scopes:
+            for c in walk(scope, into_defs=True):
+                if isinstance(c, ast.Call) and isinstance(c.func, ast.Attribute) and c.func.attr == "append" and \
+                        ap(c.func.value) == lname and len(c.args) == 1:
+                    queued.append(c.args[0])
+        if not queued or any(not (isinstance(q, ast.Tuple) and len(q.elts) == n) for q in queued):
+            continue
+        for i, t in enumerate(loop.target.elts):
+            if isinstance(t, ast.Name):
+                exprs = {norm(q.elts[i]) for q in queued}
+                if len(exprs) == 1:
+                    out[t.id] = queued[0].elts[i]
+    return out
+
+
+def _origin_path(fn_node, node, e, callers=()) -> Optional[str]:
+    """Access path of e at `node`, with names that come out of a deferred work list traced back to what was queued."""
+    p = ap(e)
+    if p is None:
+        return None
+    root = p.split(".")[0].replace("[]", "")
+    m = _queue_origin(fn_node, node, callers)
+    if root in m and ap(m[root]) is not None:
+        return ap(m[root]) + p[len(root):]
+    return p
+
+
 def _constructs(repo, cg, g: FuncInfo, e, cls_name: str, depth=0) -> bool:
     """Expression e (in g) builds an instance of cls_name: a direct constructor call, or a call of a same-class /
     same-module helper all of whose returns do (local names followed)."""
@@ -1428,15 +1478,32 @@ def r3(ctx):
         ok1 = p1.endswith(".name") and p1.count(".") == 1 and any(
             _constructs(repo, cg, g, b, "Block") for b in b1 if b is not None)
         # the block that receives the value, and the block handed to serialize(), are that same block
-        tgt_stores = [s for s in stores(g.node, into_defs=False) if s.kind == "setitem" and isinstance(s.target, ast.Subscript)
-                      and ap(s.target.slice) == p2]
-        ok_store = bool(tgt_stores) and all(s.path == blk for s in tgt_stores)
-        ser = [c for c in find_calls(g.node, "serialize") if c.args]
-        ok_ser = bool(ser) and all(ap(c.args[0]) == blk for c in ser)
+        # stores of the parsed value and serialize() calls, in the parser and its same-class helpers (a helper that
+        # drains a work list is traced back to the list its caller filled)
+        scan = [g] + [h for h in class_methods_reachable(repo, g) if h is not g]
+        tgt_stores, ser = [], []
+        for h in scan:
+            callers = [(g.node, c) for c in calls(g.node, into_defs=True) if call_attr(c) == h.name] if h is not g else ()
+            for st_ in stores(h.node, into_defs=True):
+                if st_.kind == "setitem" and isinstance(st_.target, ast.Subscript) and \
+                        _origin_path(h.node, st_.node, st_.target.slice, callers) == p2:
+                    tgt_stores.append((st_, _origin_path(h.node, st_.node, st_.target.value, callers)))
+            for c in find_calls(h.node, "serialize"):
+                if c.args and isinstance(c.func, ast.Attribute):
+                    ser.append((c, _origin_path(h.node, c, c.args[0], callers), _origin_path(h.node, c, c.func.value, callers)))
+        ok_store = bool(tgt_stores) and all(path == blk for _, path in tgt_stores)
+        ser_blocks = [b for _, b, _ in ser]
+        ok_ser = bool(ser) and all(b == blk for b in ser_blocks)
+        # the serializer that is called is the one that was looked up
+        look_names = {st_.path for st_ in stores(g.node, into_defs=True) if st_.kind == "assign" and st_.value is node}
+        ser_recv = [r for _, _, r in ser]
+        ok_recv = bool(ser_recv) and all(r in look_names for r in ser_recv)
         ctx.ob("C11.R3", inst + ": element 1 is the name of the block that receives the value", ok1 and ok_store, where,
-               f"key uses {p1}; value stored into {[s.path for s in tgt_stores]}[{p2}]")
+               f"key uses {p1}; value stored into {[path for _, path in tgt_stores]}[{p2}]")
         ctx.ob("C11.R3", inst + ": serialize() is given the same block", ok_ser, where,
-               f"serialize called with {[ap(c.args[0]) for c in ser]}, key block is {blk}")
+               f"serialize called with {ser_blocks}, key block is {blk}")
+        ctx.ob("C11.R3", inst + ": the looked-up serializer is the one whose serialize() runs", ok_recv, where,
+               f"lookup bound to {sorted(look_names)}, serialize() called on {ser_recv}")
         ctx.ob("C11.R3", inst + ": element 2 is the parsed variable name", isinstance(e2, ast.Name) and bool(tgt_stores), where)
 
     # ---- formatter
@@ -1631,7 +1698,100 @@ def r5(ctx):
                        "adapters never build or OR an enum.IntFlag from a possibly negative int)")
 
 
+def r6(ctx):
+    """Packed (`=|`) values are serialized against their *complete* block (a subfield serializer may consult sibling
+    variables that appear on later lines): serialize() runs at a block boundary or after the last line, never in the
+    per-line branch; and it does run after the last line."""
+    repo = ctx.repo
+    ctx.rule("C11.R6", "packed values are serialized only once their block is complete: serializer.serialize() is reached at "
+                       "a block boundary / after the line loop, never while the block's remaining lines are still unparsed")
+    cg = CallGraph(repo)
+    pf = repo.fn("HumanMessageSerializer.from_human_string")
+    pfns = class_methods_reachable(repo, pf)
+    looks = [(g, node) for g, node, key in _registry_lookups(repo, pfns)]
+    ctx.require(any(g is pf for g, _ in looks), "C11.R6: the subfield serializer lookup is no longer in from_human_string itself")
+    look = next(node for g, node in looks if g is pf)
+    loops = [a for a in ancestors(look) if isinstance(a, (ast.While, ast.For))]
+    ctx.require(bool(loops), "C11.R6: the serializer lookup is not inside a per-line loop")
+    loop = loops[-1]          # outermost loop of the parser: one iteration per (logical) line
+    # arm of the loop body that starts a new block
+    blk_arm = None
+    for st_ in stores(loop, into_defs=False):
+        if st_.kind == "assign" and st_.value is not None and _constructs(repo, cg, pf, st_.value, "Block"):
+            cur = st_.node
+            while cur is not loop and cur is not None:
+                p_ = parent(cur)
+                if isinstance(p_, ast.If):
+                    blk_arm = (p_, "body" if any(cur is x for x in p_.body) else "orelse")
+                    break
+                cur = p_
+    ctx.require(blk_arm is not None, "C11.R6: the branch of the line loop that starts a new Block was not found")
+
+    def in_arm(node, arm) -> bool:
+        if_node, which = arm
+        cur = node
+        while cur is not None and cur is not if_node:
+            p_ = parent(cur)
+            if p_ is if_node:
+                return any(cur is x for x in getattr(if_node, which))
+            cur = p_
+        return False
+
+    # serialize() calls on the looked-up serializer, and the places where they are *executed*
+    ser = []
+    for g in pfns:
+        for c in find_calls(g.node, "serialize"):
+            if c.args and isinstance(c.func, ast.Attribute):
+                ser.append((g, c))
+    ctx.floor("C11.R6", "serializer.serialize() calls in the parser", len(ser), 1)
+    def lift(g, node, depth=0) -> List[ast.AST]:
+        """Where in from_human_string's own body is `node` (in g) executed: follow closures and helpers to their calls."""
+        ctx.require(depth < 6, "C11.R6: serialize() is nested too deeply in helpers")
+        if g is not pf:
+            cs = [x for x in calls(pf.node, into_defs=True) if call_attr(x) == g.name
+                  and isinstance(x.func, ast.Attribute) and ap(x.func.value) in ("cls", "self")]
+            ctx.require(bool(cs), f"C11.R6: helper {g.qual} containing serialize() is not called from from_human_string")
+            return [s_ for x in cs for s_ in lift(pf, x, depth + 1)]
+        nested = [a for a in ancestors(node) if isinstance(a, FUNC_TYPES) and a is not pf.node]
+        if not nested:
+            return [node]
+        dname = nested[0].name
+        cs = [x for x in calls(pf.node, into_defs=True) if isinstance(x.func, ast.Name) and x.func.id == dname]
+        ctx.require(bool(cs), f"C11.R6: closure {dname} containing serialize() is never called in from_human_string")
+        return [s_ for x in cs for s_ in lift(pf, x, depth + 1)]
+    sites = []
+    for g, c in ser:
+        for s_ in lift(g, c):
+            if not any(s_ is t for t in sites):
+                sites.append(s_)
+    n_after = 0
+    for site in sites:
+        inside = any(a is loop for a in ancestors(site))
+        if not inside:
+            # after the loop, on the normal way out of the function
+            if isinstance(parent(enclosing_stmt(site)), FUNC_TYPES) and enclosing_stmt(site).lineno > loop.lineno:
+                n_after += 1
+            continue
+        ok = in_arm(site, blk_arm)
+        ctx.ob("C11.R6", f"from_human_string: `{norm(site)}` inside the line loop runs only where a new block starts", ok,
+               ctx.w(pf, site), "serialize() of a packed value runs while later lines of the same block are still unparsed: a "
+               "serializer that reads a sibling variable (e.g. ObjectUpdate State needs PCode) sees an incomplete block")
+    cfg = CFG(pf.node)
+    # every normal exit after the loop passes a serialize site
+    after_sites = [n for site in sites if not any(a is loop for a in ancestors(site)) for n in cfg.stmt_nodes_containing(site)]
+    loop_nodes = cfg.nodes_for(loop)
+    escapes = bool(loop_nodes) and cfg.exit in cfg.reachable(loop_nodes, avoid=lambda n: n in after_sites or
+                                                           (n.ast is not None and n is not loop_nodes[0] and
+                                                            any(a is loop for a in ancestors(n.ast))), exc=False)
+    inline_only = all(any(a is loop for a in ancestors(s_)) and not in_arm(s_, blk_arm) for s_ in sites)
+    ctx.ob("C11.R6", "from_human_string: packed values still pending after the last line are serialized before returning",
+           inline_only or (n_after >= 1 and not escapes), pf.where,
+           "no serialize() site on the way from the end of the line loop to the return: the last block's packed values "
+           "would stay unserialized")
+
+
 def run(ctx):
+    r6(ctx)
     r5(ctx)
     r1(ctx)
     r2(ctx)
